@@ -201,3 +201,67 @@ Proof.
            ++ assert ((blen - (nxt + round8 size)) / 8 < (blen - nxt) / 8) by (unfold round8 in *; lia). lia.
            ++ replace (b + (nxt + round8 size)) with (b + nxt + round8 size) by lia. exact W'.
 Qed.
+
+(* ---- an iterator after a caught panic: the offset it is left with, and that it can be used further without a fault ---- *)
+Definition left_closed (h : hkind) (m : mem) (b blen nxt : N) : N :=
+  if (nxt =? blen) || (blen <? nxt) then nxt else
+  let size := stored_size h (slice (m_bytes m) (b + nxt) 8) in
+  if size <? 8 then nxt else nxt + round8 size.
+
+Lemma tagiter_left_closed p h m b blen nxt :
+  iter_ok h m b blen -> nxt mod 8 = 0 ->
+  tagiter_left p h m b blen nxt = left_closed h m b blen nxt.
+Proof.
+  intros [Hh Hb Hl Hin Hs] Hn. apply is_tag_hdr_size in Hh. unfold tagiter_left, left_closed.
+  destruct (N.eqb_spec nxt blen) as [E|E]; [reflexivity|]. cbn [orb].
+  unfold assert. destruct (N.ltb_spec nxt blen) as [Hlt|Hge].
+  - destruct (N.ltb_spec blen nxt) as [X|_]; [lia|]. cbn [bind].
+    unfold mrd, rd. rewrite Hh.
+    destruct (N.leb_spec (b + nxt + 8) (len (m_bytes m))) as [_|X]; [|lia]. cbn [bind].
+    rewrite payload_len_spec. rewrite Hh.
+    set (size := stored_size h (slice (m_bytes m) (b + nxt) 8)).
+    pose proof (stored_size_bound h (slice (m_bytes m) (b + nxt) 8)) as Hsz. fold size in Hsz.
+    unfold pow2_32 in *.
+    destruct (N.ltb_spec size 8) as [H8|H8]; cbn [bind]; [reflexivity|].
+    rewrite uadd_ok by (unfold pow2_64; lia). cbn [bind].
+    rewrite uadd_ok by (unfold pow2_64; lia). cbn [bind].
+    rewrite inc_align_spec by (unfold pow2_64; lia). cbn [bind].
+    replace (8 + (size - 8)) with size by lia.
+    assert (Er : round8 (nxt + size) = nxt + round8 size) by (unfold round8; lia).
+    rewrite Er.
+    rewrite usub_ok by lia. cbn [bind].
+    rewrite uadd_ok by (unfold pow2_64, round8; lia).
+    f_equal. lia.
+  - destruct (N.ltb_spec blen nxt) as [_|X]; [|lia]. reflexivity.
+Qed.
+
+Lemma tagiter_next_beyond p h m b blen nxt : blen < nxt -> tagiter_next p h m b blen nxt = Panic.
+Proof.
+  intros H. unfold tagiter_next. destruct (N.eqb_spec nxt blen) as [E|_]; [lia|].
+  unfold assert. destruct (N.ltb_spec nxt blen) as [X|_]; [lia|]. reflexivity.
+Qed.
+
+(* from EVERY 8-aligned offset - inside the buffer, at its end, or beyond it after a caught panic - next() is a value or a
+   controlled panic, never a fault, and leaves an 8-aligned offset *)
+Lemma tagiter_step_safe p h m b blen nxt :
+  iter_ok h m b blen -> nxt mod 8 = 0 ->
+  is_fault (fst (tagiter_step p h m b blen nxt)) = false /\ snd (tagiter_step p h m b blen nxt) mod 8 = 0.
+Proof.
+  intros Hok Hn. unfold tagiter_step.
+  destruct (N.le_gt_cases nxt blen) as [Hle|Hgt].
+  - rewrite (tagiter_next_closed p h m b blen nxt Hok Hn Hle).
+    rewrite (tagiter_left_closed p h m b blen nxt Hok Hn).
+    destruct (next_closed h m b blen nxt) as [[o n']| | |] eqn:E.
+    + cbn [fst snd is_fault]. split; [reflexivity|].
+      destruct (next_closed_inv h m b blen nxt o n' (io_blen _ _ _ _ Hok) Hn Hle E) as (A & _). exact A.
+    + exfalso. unfold next_closed in E. destruct (nxt =? blen); [discriminate|].
+      destruct (_ <? 8); [discriminate|]. destruct (blen <? _); discriminate.
+    + cbn [fst snd is_fault]. split; [reflexivity|]. unfold left_closed.
+      destruct ((nxt =? blen) || (blen <? nxt)); [exact Hn|].
+      destruct (_ <? 8); [exact Hn|]. unfold round8. lia.
+    + exfalso. unfold next_closed in E. destruct (nxt =? blen); [discriminate|].
+      destruct (_ <? 8); [discriminate|]. destruct (blen <? _); discriminate.
+  - rewrite (tagiter_next_beyond p h m b blen nxt Hgt). cbn [fst snd is_fault]. split; [reflexivity|].
+    rewrite (tagiter_left_closed p h m b blen nxt Hok Hn). unfold left_closed.
+    destruct (N.eqb_spec nxt blen) as [X|_]; [lia|]. destruct (N.ltb_spec blen nxt) as [_|X]; [|lia]. exact Hn.
+Qed.
